@@ -44,7 +44,7 @@ func runConc(c Case) interface{} {
 	// sequential baseline
 	base := make([]Result, len(jobs))
 	for i, j := range jobs {
-		base[i] = eng.Render(context.Background(), tname(i), deepCopyJ(asJ(j)["data"]))
+		base[i] = eng.Render(context.Background(), tname(i), reviveGo(deepCopyJ(asJ(j)["data"])))
 	}
 	n := int(c["n"].(float64))
 	rounds := int(c["rounds"].(float64))
@@ -58,7 +58,7 @@ func runConc(c Case) interface{} {
 		datas := make([][3]interface{}, n)
 		for g := 0; g < n; g++ {
 			for k := 0; k < 3; k++ {
-				datas[g][k] = deepCopyJ(asJ(jobs[(g+k)%len(jobs)])["data"])
+				datas[g][k] = reviveGo(deepCopyJ(asJ(jobs[(g+k)%len(jobs)])["data"]))
 			}
 		}
 		for g := 0; g < n; g++ {
@@ -145,6 +145,9 @@ func genC08(r *Rng, n int, tier string, emit func(Case)) {
 				// a context-bound template function: every render has its own context
 				jobs = append(jobs, J{"doc": []interface{}{nText("<"), nBuf(eCall(eId("vpWho")), true), nEach("v", "", eId("xs"), nBuf(eCall(eId("vpWho")), true)), nText(">")}, "data": mutData(rr)})
 			} else if rr.Chance(1, 6) {
+				// page data with a display order of its own (a Go map type with Order()): every render adds ITS key and walks the map
+				jobs = append(jobs, orderedJob(rr, j))
+			} else if rr.Chance(1, 6) {
 				// a render that fails at run time: the error path reads the engine's template code
 				jobs = append(jobs, J{"doc": []interface{}{nText("before"), nBuf(eCall(eDot(eId("xs"), "join"), eStr("a"), eStr("b")), true)}, "data": mutData(rr)})
 			} else {
@@ -196,4 +199,21 @@ func deepCopyJ(v interface{}) interface{} {
 		return l
 	}
 	return v
+}
+
+// orderedJob: the template adds a key of its own to an ordered Go map from the data, then walks it
+func orderedJob(rr *Rng, j int) J {
+	extra := fmt.Sprintf("extra%d", j)
+	ord := []interface{}{"color", "size", "weight"}
+	m := J{"color": "blue", "size": "M", "weight": "2kg"}
+	if rr.Chance(1, 3) {
+		// the order lists only some of the keys
+		m["depth"], m["height"], m["material"] = "1", "2", "oak"
+	}
+	doc := []interface{}{
+		nRaw(sAssign(eIdx(eId("attrs"), eId("extra")), eStr("yes"))),
+		nEach("v", "k", eId("attrs"), nBuf(eId("k"), true), nText("="), nBuf(eId("v"), true), nText(";")),
+		nText("|"), nBuf(eCall(eDot(eCall(eDot(eId("Object"), "keys"), eId("attrs")), "join"), eStr(",")), true),
+	}
+	return J{"doc": doc, "data": J{"attrs": J{"__go": "ordered", "m": m, "order": ord}, "extra": extra}}
 }
